@@ -47,7 +47,7 @@ def run_shards(mod, modname, specs, scratch):
         with open(sf, "w") as f:
             json.dump(spec, f)
         timeout = spec.get("timeout", 1500)
-        e = env.worker_env(with_stubs=with_stubs, extra={"VMON_SCRATCH": scratch})
+        e = env.worker_env(with_stubs=with_stubs, extra={"VMON_SCRATCH": scratch, "JUPYTER_CONFIG_DIR": os.path.join(scratch, "jupcfg"), "HOME": os.path.join(scratch, "home")})
         try:
             p = subprocess.run([env.PY, "-m", "vmon.worker", modname, sf, of], env=e, cwd=scratch,
                                stdout=subprocess.PIPE, stderr=subprocess.PIPE, timeout=timeout)
@@ -98,6 +98,7 @@ def main(argv=None):
     mod = importlib.import_module("vmon.props." + modname)
     t0 = time.time()
     scratch = env.scratch("vmon-%s-" % modname)
+    os.makedirs(os.path.join(scratch, "jupcfg")); os.makedirs(os.path.join(scratch, "home"))
     try:
         if args.replay:
             with open(args.replay) as f:
